@@ -14,6 +14,7 @@ static std::string shape_class(const std::string &shape)
   std::string s = p == std::string::npos ? shape : shape.substr(0, p);
   if (s.rfind("set:", 0) == 0) return "set";
   if (s.rfind("default:", 0) == 0) return "default";
+  if (s.rfind("suffix:", 0) == 0) return "suffix";
   return s;
 }
 
@@ -234,7 +235,7 @@ void run_tcpframe(Ctx &c, const ares_dns_record_t *r1, const ares_dns_record_t *
     }
   for (int i = 0; i < 2; i++) {
     if (!wrote[i]) continue;
-    std::string tag = pf + ":msg=" + std::to_string(i + 1);
+    std::string tag = pf + ":msg=" + std::to_string(i + 1) + ":" + sc;
     if (!data || pos + lens[i] > rem || lens[i] < 2) {
       c.viol("C03:tcpframe:frame-extent:" + tag, shape);
       break;
@@ -539,7 +540,7 @@ static void finish_record(Ctx &c, ares_dns_record_t *r)
   if (!ledger_clean(&what)) c.viol("C03:leak:record-destroy", what);
 }
 
-static const char *POOL[] = { "example.com", "www.example.com", "mail.www.example.com", "com", "Example.com", "xexample.com" };
+static const char *POOL[] = { "example.com", "www.example.com", "mail.www.example.com", "com", "Example.com", "xexample.com", "a.mail.www.example.com" };
 
 static ares_dns_record_t *suffix_record(const std::vector<int> &sel, int kind)
 {
@@ -549,7 +550,7 @@ static ares_dns_record_t *suffix_record(const std::vector<int> &sel, int kind)
     ares_dns_rr_t *rr     = nullptr;
     const char    *owner  = POOL[sel[i]];
     const char    *target = POOL[sel[(i + 1) % sel.size()]];
-    ares_dns_section_t s = i < 2 ? ARES_SECTION_ANSWER : i == 2 ? ARES_SECTION_AUTHORITY : ARES_SECTION_ADDITIONAL;
+    ares_dns_section_t s = i < 2 ? ARES_SECTION_ANSWER : i == 2 ? ARES_SECTION_AUTHORITY : ARES_SECTION_ADDITIONAL; /* 4th+ RRs go to additional */
     if (kind == 0) {
       ares_dns_record_rr_add(&rr, r, s, owner, ARES_REC_TYPE_NS, ARES_CLASS_IN, 60 + (unsigned)i);
       if (rr) ares_dns_rr_set_str(rr, ARES_RR_NS_NSDNAME, target);
@@ -610,8 +611,8 @@ static ares_dns_record_t *offset_record(size_t target_off, bool with_late)
 
 void fam_roundtrip(Ctx &c)
 {
-  c.rep.bound = "setter-built records: every RR type x every key x boundary values; owner/question/rdata names x escape forms; 2-" + std::string(c.thorough ? "4" : "3") +
-                " RRs from a pool of 6 suffix-sharing names in every order x {NS,SRV,MX}; name offsets 16376..16392 and message sizes 65525..65545; ares_dns_write_buf_tcp with prefill {0,1,2,3,17,16383,16384} x consumed {0,1,p-1,p} x 2 messages";
+  c.rep.bound = "setter-built records: every RR type x every key x boundary values; owner/question/rdata names x escape forms; 2-" + std::string(c.thorough ? "5" : "3") +
+                " RRs from a pool of " + std::string(c.thorough ? "7" : "6") + " suffix-sharing names in every order x {NS,SRV,MX}; name offsets 16376..16392 and message sizes 65525..65545; ares_dns_write_buf_tcp with prefill {0,1,2,3,17,16383,16384} x consumed {0,1,p-1,p} x 2 messages";
   long long idx = 0;
   auto      CASE = [&](const std::string &extra, const std::function<void()> &fn) {
     if (c.take(idx) && !(c.only_index < 0 && time_up(c))) {
@@ -696,7 +697,8 @@ void fam_roundtrip(Ctx &c)
   }
   // G3: suffix sharing in every order (+ TCP framing of the same records)
   const size_t prefills[] = { 0, 1, 2, 3, 17, 16383, 16384 };
-  int          maxk       = c.thorough ? 4 : 3;
+  int          maxk       = c.thorough ? 5 : 3;
+  int          npool      = c.thorough ? 7 : 6;
   for (int kind = 0; kind < 3; kind++)
     for (int k = 2; k <= maxk; k++) {
       std::vector<int> sel(k, 0);
@@ -731,7 +733,7 @@ void fam_roundtrip(Ctx &c)
           });
           return;
         }
-        for (int x = 0; x < 6; x++) {
+        for (int x = 0; x < npool; x++) {
           bool used = false;
           for (int j = 0; j < depth; j++)
             if (sel[j] == x) used = true;
